@@ -262,6 +262,8 @@ class Interp(object):
             return tok
         if fn is set or fn is frozenset:
             return SymSet.of(args[0]) if args else SymSet()
+        if fn is sorted and args and isinstance(args[0], (SymSet, NameTuple, GList)):
+            return args[0]        # order is irrelevant to the guarded loops that consume it
         if fn in (list, tuple):
             if not args:
                 return fn()
@@ -286,6 +288,11 @@ class Interp(object):
             return collections.defaultdict(GList)
         if getattr(fn, '__name__', '') == 'from_iterable':
             return SymSet.of(args[0])
+        if fn is itertools.chain:
+            out = SymSet()
+            for a in args:
+                out = out | (a.ss if isinstance(a, NameTuple) else a)
+            return out
         if getattr(fn, '__name__', '') == 'union' and getattr(fn, '__objclass__', None) is set:
             out = SymSet()
             for a in args:
@@ -460,6 +467,22 @@ class Interp(object):
                     return lambda: base.keys_set
                 raise Unsupported('dict.%s on abstract dict' % e.attr)
             if isinstance(base, SymSet):
+                if e.attr in ('discard', 'remove', 'difference_update'):
+                    def rem(o, base=base, single=(e.attr != 'difference_update')):
+                        if self.guard is not None:
+                            raise Unsupported('set mutation under guard')
+                        n = base - ([o] if single else o)
+                        base.b, base.extra = n.b, n.extra
+                    return rem
+                if e.attr == 'copy':
+                    return lambda base=base: base.copy()
+                if e.attr in ('union', 'intersection', 'difference'):
+                    def setop(*os, base=base, op=e.attr):
+                        out = base
+                        for o in os:
+                            out = (out | o) if op == 'union' else ((out & o) if op == 'intersection' else (out - o))
+                        return out
+                    return setop
                 if e.attr in ('update', 'add'):
                     def upd(o, base=base, single=(e.attr == 'add')):
                         if self.guard is not None:
@@ -497,7 +520,7 @@ class Interp(object):
                 if isinstance(Sx, NameTuple):
                     Sx = Sx.ss
                 return (Sx & D, Sx - D)
-            if callable(fn) and getattr(fn, '__name__', '') in ('<lambda>', 'upd', 'app'):
+            if callable(fn) and getattr(fn, '__name__', '') in ('<lambda>', 'upd', 'app', 'rem', 'setop'):
                 return fn(*args, **kwargs)
             return self.call(fn, args, kwargs, e)
         if isinstance(e, ast.BinOp):
